@@ -1957,3 +1957,130 @@ func rulePageRangeOverlap(c *eng.Ctx) {
 	}
 	c.Check(bad == "", R, name, fn.Pos(), fmt.Sprintf("predicate equals span intersection on %d orderings", n), "the page-range filter is not the overlap predicate: "+bad)
 }
+
+// R17.8 [C17, C14, C15]
+func ruleJoinBufferFresh(c *eng.Ctx) {
+	const R = "R17.8-JOIN-BUFFER-FRESH"
+	c.Rule(R, "a slice of fields that is filled by index and joined once per trip of a loop (one line per row) is allocated inside that trip: a buffer made once outside keeps, in every slot a trip does not store, the text the previous row left there", 0, 1)
+	n := 0
+	for _, fn := range c.P.ModuleFuncs() {
+		if fn.Blocks == nil {
+			continue
+		}
+		k := 0
+		for _, ci := range eng.CallsNamed(fn, false, "strings.Join") {
+			var mk ssa.Instruction
+			var mkVal ssa.Value
+			switch x := ci.Common().Args[0].(type) {
+			case *ssa.MakeSlice:
+				mk, mkVal = x, x
+			case *ssa.Slice:
+				// make with a constant length is a new array sliced whole
+				if al, isAl := x.X.(*ssa.Alloc); isAl && al.Heap {
+					mk, mkVal = al, x
+				}
+			}
+			ok := mk != nil
+			if !ok {
+				// a buffer captured by a closure lives in a cell
+				if ld, isLd := ci.Common().Args[0].(*ssa.UnOp); isLd && ld.Op == token.MUL {
+					if fv, isFV := ld.X.(*ssa.FreeVar); isFV {
+						if cellMakeOutsideLoop(fv, ci) {
+							n++
+							k++
+							c.Viol(R, fmt.Sprintf("%s#join%d", eng.FuncName(fn), k), ci.Pos(), "the joined field buffer is shared by all calls of this closure (made once outside) and filled by index: slots a row does not store keep the previous row's text")
+						}
+					}
+				}
+				continue
+			}
+			hs := enclosingLoopHeaders(ci.Block())
+			if len(hs) == 0 {
+				continue
+			}
+			// filled by index
+			byIndex := false
+			for _, r := range *mkVal.Referrers() {
+				if _, ok := r.(*ssa.IndexAddr); ok {
+					byIndex = true
+				}
+			}
+			if !byIndex {
+				continue
+			}
+			n++
+			k++
+			inner := hs[len(hs)-1]
+			fresh := inner.Dominates(mk.Block()) && inner != mk.Block()
+			c.Check(fresh, R, fmt.Sprintf("%s#join%d", eng.FuncName(fn), k), ci.Pos(), "field buffer allocated in the trip that joins it",
+				"the joined field buffer is allocated outside the loop that joins it once per trip and is filled by index: slots a trip does not store keep the previous row's text")
+		}
+	}
+}
+
+// cellMakeOutsideLoop: the free variable fv of a closure holds a slice made in the enclosing function and stored
+// by index inside the closure, and the closure is called from a loop of the enclosing function.
+func cellMakeOutsideLoop(fv *ssa.FreeVar, join ssa.CallInstruction) bool {
+	anon := fv.Parent()
+	if anon == nil || anon.Parent() == nil {
+		return false
+	}
+	// filled by index inside the closure
+	byIndex := false
+	eng.Instrs(anon, false, func(in ssa.Instruction) {
+		if ia, ok := in.(*ssa.IndexAddr); ok {
+			if ld, ok := ia.X.(*ssa.UnOp); ok && ld.X == ssa.Value(fv) {
+				for _, r := range *ia.Referrers() {
+					if _, isSt := r.(*ssa.Store); isSt {
+						byIndex = true
+					}
+				}
+			}
+		}
+	})
+	if !byIndex {
+		return false
+	}
+	idx := -1
+	for i, f := range anon.FreeVars {
+		if f == fv {
+			idx = i
+		}
+	}
+	res := false
+	eng.Instrs(anon.Parent(), false, func(in ssa.Instruction) {
+		mc, ok := in.(*ssa.MakeClosure)
+		if !ok || mc.Fn != ssa.Value(anon) || idx < 0 || idx >= len(mc.Bindings) {
+			return
+		}
+		cell, ok := mc.Bindings[idx].(*ssa.Alloc)
+		if !ok {
+			return
+		}
+		for _, r := range *cell.Referrers() {
+			st, ok := r.(*ssa.Store)
+			if !ok || st.Addr != ssa.Value(cell) {
+				continue
+			}
+			if mk, ok := st.Val.(*ssa.MakeSlice); ok {
+				// made where the closure is made (once), and the closure is called in a loop nested deeper than the make
+				called := false
+				eng.Instrs(anon.Parent(), false, func(i2 ssa.Instruction) {
+					if ci, ok := i2.(ssa.CallInstruction); ok && eng.StaticCallee(ci) == anon && eng.InLoop(ci.Block()) {
+						hs := enclosingLoopHeaders(ci.Block())
+						if len(hs) > 0 {
+							inner := hs[len(hs)-1]
+							if !(inner.Dominates(mk.Block()) && inner != mk.Block()) {
+								called = true
+							}
+						}
+					}
+				})
+				if called {
+					res = true
+				}
+			}
+		}
+	})
+	return res
+}
